@@ -396,6 +396,11 @@ pub fn run(args: &Args) {
         eprintln!("tool error: {e}");
         std::process::exit(2);
     }
+    let abandoned = sh.out.counters.get("abandoned:database-is-locked").copied().unwrap_or(0);
+    if abandoned as usize * 20 > total.max(20) {
+        eprintln!("tool error: {abandoned} of {total} behaviours abandoned (database is locked)");
+        std::process::exit(2);
+    }
     eprintln!("[topicstream replay] {total} behaviours, crash mode = {}", if kill { "SIGKILL child" } else { "in-process drop" });
     sh.out.write(args);
 }
@@ -449,6 +454,7 @@ fn run_behaviour(b: &Value, db: &std::path::Path, kill: bool, prop: &'static str
     let mut distinct = Vec::new();
     let mut policies = BTreeSet::new();
     let mut last_open = json!(null);
+    let mut abandoned = false;
 
     for step in steps {
         let act = step["act"].as_str().unwrap_or("?");
@@ -513,6 +519,16 @@ fn run_behaviour(b: &Value, db: &std::path::Path, kill: bool, prop: &'static str
                             Err(e2) => return Err(format!("{e}; and the node does not run when released either: {e2}")),
                         }
                     }
+                    Err(e) if e.contains("database is locked") && !kill => {
+                        // In-process crash only: what is left of the dropped incarnation (actor and
+                        // pipeline threads of the old node) occasionally still writes to the file
+                        // while the new node runs; a read-then-write transaction of the new node then
+                        // fails with SQLITE_BUSY_SNAPSHOT. That is the simulation's afterlife, not a
+                        // step of the behaviour: the behaviour is abandoned (counted, never judged).
+                        *counters.entry("abandoned:database-is-locked".into()).or_insert(0) += 1;
+                        abandoned = true;
+                        break;
+                    }
                     Err(e) => return Err(e),
                 }
             }
@@ -557,6 +573,9 @@ fn run_behaviour(b: &Value, db: &std::path::Path, kill: bool, prop: &'static str
     }
     if let Some(h) = host.take() {
         h.crash();
+    }
+    if abandoned {
+        findings.clear();
     }
     distinct.push(format!("policies={policies:?},crashes={crashes},expect={}", walk.expect.len()));
     Ok(BehaviourResult {
